@@ -916,7 +916,9 @@ class Constraints:
             with localcontext() as ctx:
                 # the completed value needs room for all its digits, whatever the caller's decimal context is
                 ctx.prec = max(ctx.prec, digits + d + 2)
-                return round(value, d)
+                result = round(value, d)
+            # (keep a declared subclass of Decimal)
+            return result if type(result) is type(value) else type(value)(result)
         return value
 
     @classmethod
